@@ -5,6 +5,7 @@ import (
 	"encoding/binary"
 	"errors"
 	"fmt"
+	"github.com/klev-dev/klevdb/pkg/vhook"
 	"io"
 	"os"
 )
@@ -119,6 +120,7 @@ func OpenWriter(path string, offset int64, newVersion Version, opts Params) (w *
 		if _, err := f.Write(h[:]); err != nil {
 			return nil, fmt.Errorf("write index header: %w", err)
 		}
+		vhook.FS("create", path, int64(len(h)))
 		pos = int64(len(h))
 		v = newVersion
 	} else {
@@ -170,6 +172,7 @@ func (w *Writer) writeBase(it Item) error {
 		return fmt.Errorf("write index: %w", err)
 	} else {
 		w.pos += int64(n)
+		vhook.FS("write", w.f.Name(), int64(n))
 	}
 
 	return nil
@@ -184,6 +187,7 @@ func (w *Writer) writeTimes(it Item) error {
 		return fmt.Errorf("write index: %w", err)
 	} else {
 		w.pos += int64(n)
+		vhook.FS("write", w.f.Name(), int64(n))
 	}
 
 	return nil
@@ -198,6 +202,7 @@ func (w *Writer) writeKeys(it Item) error {
 		return fmt.Errorf("write index: %w", err)
 	} else {
 		w.pos += int64(n)
+		vhook.FS("write", w.f.Name(), int64(n))
 	}
 
 	return nil
@@ -213,6 +218,7 @@ func (w *Writer) writeFull(it Item) error {
 		return fmt.Errorf("write index: %w", err)
 	} else {
 		w.pos += int64(n)
+		vhook.FS("write", w.f.Name(), int64(n))
 	}
 
 	return nil
@@ -226,6 +232,7 @@ func (w *Writer) Sync() error {
 	if err := w.f.Sync(); err != nil {
 		return fmt.Errorf("write index sync: %w", err)
 	}
+	vhook.FS("fsync", w.f.Name(), w.pos)
 	return nil
 }
 
